@@ -406,6 +406,8 @@ def build_query(ctx: Ctx, ob, extra_axioms=()):
         ax.extend(r._axioms)
     ax.extend(sum_ext_axioms(reds, getattr(ctx, '_last_ground_apps', None)))
     allf = base + ax
+    if uses_decl(allf, ops.UF["exp"]):
+        ax.extend(ops.exp_axioms(allf, exact=getattr(ctx, 'exact_norm', False), goal=neg))
     if uses_decl(allf, ops.NORM2):
         ax.extend(ops.norm2_axioms(allf, exact=getattr(ctx, 'exact_norm', False), goal=neg))
     return fs + list(extra_axioms) + ax, goal
